@@ -11,10 +11,10 @@ RULE_TEXT = ("Generated workflows (fan-out, retries, queued events, InputRequire
              "durations/ties; oracle over the publish-side record: per (step, worker) the sequence is "
              "(RUNNING NOT_RUNNING)*, every PREPARING is followed by a RUNNING of the same input type, every body "
              "entry is covered by an open RUNNING slot of its input type, a returned InputRequiredEvent is "
-             "published exactly once. Non-trivial: >=1 PREPARING and >=6 slot changes; distinct = abstract trace shape.")
+             "published exactly once. A fifth of the runs are snapshotted mid-run (ctx.to_dict), abandoned and resumed (Context.from_dict); the resumed run's stream is held to the same grammar. Non-trivial: >=1 PREPARING and >=6 slot changes; distinct = abstract trace shape.")
 COMPONENTS = {"real": ["workflows.* engine"], "stub": ["llama_index_instrumentation"], "sim": ["loop, clock, executor"]}
 ASSUMPTIONS = ["FIFO ready queue; instrumentation stub is a no-op"]
-EXPECTED_PROBES = ["preparing", "ire-returned"]
+EXPECTED_PROBES = ["preparing", "ire-returned", "resumed-from-mid-run-snapshot"]
 LEVEL_TEXT = ("Seeded exploration; grammar of StepStateChanged / InputRequiredEvent publications checked on every "
               "run's publish-side record, with 'unless the run ends first' honoured by checking completeness only "
               "at simulator quiescence before the driver lets the run finish.")
@@ -32,7 +32,18 @@ def check(world, spec, outcome) -> None:
     ire_ret: dict[int, int] = {}
     ire_pub: dict[int, int] = {}
     quiesced_seq = None
+    dead = dict(getattr(world, "dead_runs", {}) or {})
     for seq, t, kind, f in world.trace.recs:
+        if kind == "snapshot":
+            # the first run is abandoned here and a new run resumes from the snapshot: a new stream, the grammar starts afresh
+            # ("unless the run ends first" for whatever was open on the old one)
+            slots.clear(); claimed.clear(); inv_slot.clear(); prep.clear()
+            for u in [u for u in ire_ret if not ire_pub.get(u)]:
+                del ire_ret[u]      # returned by a body whose result the abandoned run never got to reduce: the resumed run re-runs that body
+            world.probe("resumed-from-mid-run-snapshot")
+            continue
+        if f.get("run") in dead and seq > dead[f["run"]]:
+            continue
         if kind == "publish" and f["ev"] == "StepStateChanged":
             st, step = f["state"], f["step"]
             nchg += 1
@@ -104,4 +115,9 @@ def gen(tape, cfg):
 
 
 def run(tape):
+    # a fifth of the runs: snapshot (ctx.to_dict) at a seeded instant, abandon, resume in a new run (Context.from_dict): the resumed
+    # run's stream must obey the same grammar, including for the invocations it restarts
+    if tape.draw(5, "c35.resume") == 0:
+        from worlds.engine import drive_resume
+        return simulate(tape, dict(CFG, p_wait=0), check, gen=gen, scenario=drive_resume, nontrivial=lambda w, s, o: w._nt)
     return simulate(tape, CFG, check, gen=gen, nontrivial=lambda w, s, o: w._nt)
